@@ -49,3 +49,15 @@ package ipfs
 //@   ensures result1 == nil ==> typeis(result, "*berty.tech/go-orbit-db/accesscontroller/ipfs.ipfsAccessController") && ref(result) != 0
 //@   ensures result1 == nil && len(W0) == 0 ==> len(ptr(result, "berty.tech/go-orbit-db/accesscontroller/ipfs.ipfsAccessController").writeAccess) == 1 && ptr(result, "berty.tech/go-orbit-db/accesscontroller/ipfs.ipfsAccessController").writeAccess[0] == ptr(dbIdentity(db), "identityprovider.Identity").ID
 //@   ensures result1 == nil && len(W0) > 0 ==> ptr(result, "berty.tech/go-orbit-db/accesscontroller/ipfs.ipfsAccessController").writeAccess == W0
+
+// Load (C03): after a successful load the write list is exactly the list recorded under that address —
+// also when that list is empty (nobody may write) — and nothing of a previous list survives. (Run-time safety
+// of Load is not claimed: a fetched manifest without parameters makes manifest.Params nil; no listed property
+// covers the content of fetched manifests.)
+//@ func (*ipfsAccessController).Load
+//@   props C03
+//@   flag no-safety
+//@   requires i.logger != nil
+//@   ensures result == nil ==> i.writeAccess == jsonStrs(0)
+//@   ensures result != nil ==> i.writeAccess == old(i.writeAccess)
+//@   modifies *
